@@ -142,11 +142,13 @@ claim('C16',
       'off-diagonal placement of numqi.gellmann agree with each other and with the documented order in both backends (G1); every '
       'producer in the package that feeds a projected synthesis respects the layout (G2, 10 sites typed symbolically); the cached '
       'basis array handed out by all_gellmann_matrix is never mutated (O1); analysis and synthesis are C-linear (no conj/real/imag/abs on '
-      'the data) and with_I only drops the last element after the tensor product (G4). Orthogonality, exact round trip and float32 behaviour '
+      'the data) and with_I only drops the last element after the tensor product (G4); every arm of gellmann_matrix is Hermitian with '
+      'Tr(G^2) = 2 and the diagonal arms are traceless, for every d and index, symbolically (G6: conjugate pairs at mirrored positions, '
+      'd*(2/d) = 2, s^2 (l + l^2) = 2). Orthogonality between different off-diagonal elements (disjoint supports), exact round trip and float32 behaviour '
       'are value-level and NOT decided.',
       'Trusted: projection semantics (.imag keeps the antisymmetric field only, .real keeps S, D, I) which follow from G1.',
       'ast table/slice extraction + symbolic (polynomial) column-range typing',
-      'DESIGN.md 4 (G, O), 5 C16')
+      'DESIGN.md 4 (G1-G6, O), 5 C16')
 claim('C03',
       'Decides the vocabulary-and-dispatch clauses of the state-vector simulator: every named gate of Circuit binds the operator '
       'its name denotes with the right arity (D2, by literal folding of the numqi.gate constants against canonical matrices); '
